@@ -18,7 +18,8 @@ for line in open(os.path.join(res, "MAP.txt")):
     done = re.findall(r"^\[done\] (\S+) tier=(\S+): (\d+) instances, (\d+) discharged, (\d+) violations, (\d+) known, (\d+) inconclusive, (\d+)s -> exit (\d+)", log, re.M)
     viol = re.findall(r"^VIOLATION property=(\S+) replay=\S*?([A-Za-z0-9_]+)\.json", log, re.M)
     fails = re.findall(r"^\[cbmc\] (\S+)\s+FAIL\s+[\d.]+s\s+(.*)$", log, re.M)
-    fails = [(h, re.sub(r" at \S+$", "", m)[:110]) for h, m in fails if "reach witness" not in m]
+    fails = [(h, (("panic at " + m.rsplit(" at ", 1)[-1].split("/")[-1]) if "placeholder message" in m else re.sub(r" at \S+$", "", m))[:110])
+             for h, m in fails if "reach witness" not in m]
     native = sorted(set(re.findall(r"native (dev|release): (\w+)", log)))
     d = done[-1] if done else None
     entry = {"check": (d[0] + " " + d[1]) if d else "?", "how": how, "exit": int(d[8]) if d else None,
@@ -35,7 +36,7 @@ for line in open(os.path.join(res, "MAP.txt")):
     rows.append((seed, needs, entry))
 print("| seeded change | needs, to manifest | check run | result | caught by (harness: assertion) |")
 print("|---|---|---|---|---|")
-for seed, needs, e in sorted(rows):
+for seed, needs, e in sorted(rows, key=lambda r: (r[0], r[2]["log"])):
     verdict = "**caught** (exit 1, %d VIOLATION)" % e["violation_lines"] if e["exit"] == 1 else ("missed (exit 0)" if e["exit"] == 0 else "inconclusive (exit %s)" % e["exit"])
     by = "; ".join(sorted(set(h.split("::", 1)[1] for h in e["failing_harnesses"])))[:120]
     print("| %s | %s | `./check %s` %ss | %s | %s: %s |" % (seed, needs[:150], e["check"].replace(" ", " --tier "), e["wall_s"], verdict, by, e["first_failure"]))
